@@ -60,12 +60,24 @@ std::istream& read(std::istream& stream, tensor_t<tstorage, tscalar, trank>& ten
     }
 
     // NB: reject invalid dimensions (negative or with an overflowing number of bytes)!
+    // NB: an empty tensor (at least one zero dimension) has no bytes whatever its other dimensions are.
     constexpr auto max_size = std::numeric_limits<tensor_size_t>::max() / static_cast<tensor_size_t>(sizeof(tscalar));
 
-    auto total = tensor_size_t{1};
+    auto empty = false;
     for (size_t i = 0; i < trank; ++i)
     {
-        if (dims[i] < 0 || (dims[i] > 0 && total > max_size / dims[i]))
+        if (dims[i] < 0)
+        {
+            stream.setstate(std::ios_base::failbit);
+            return stream;
+        }
+        empty = empty || dims[i] == 0;
+    }
+
+    auto total = tensor_size_t{1};
+    for (size_t i = 0; i < trank && !empty; ++i)
+    {
+        if (total > max_size / dims[i])
         {
             stream.setstate(std::ios_base::failbit);
             return stream;
